@@ -137,6 +137,17 @@ func check(c Case, o *stats.Obs) error {
 			return nil
 		}
 		nMsgs = len(msgs)
+		// The expectation is built from the library's own sequential framing; it is only usable if that
+		// accounts for every input byte.  If it does not, the tail of the input yields no message at all and
+		// the program's output cannot be complete when it returns.
+		var cat []byte
+		for _, m := range msgs {
+			cat = append(cat, m.RawData...)
+		}
+		if !bytes.Equal(cat, input) {
+			o.Key = "displayrtcm3/input-tail-yields-no-message"
+			return fmt.Errorf("displayrtcm3: the messages derived from the input do not cover it: %s; the output written for a finite file therefore lacks its tail\n input %x", appsup.Diff(cat, input), input)
+		}
 		// header: what the application writes for an empty input
 		hw := &appsup.LatencyWriter{}
 		select {
